@@ -12,7 +12,7 @@ INF = float("inf")
 
 
 class CFG:
-    def __init__(self, fn):
+    def __init__(self, fn, normal_only=True):
         self.fn = fn
         g = fn.get("cfg")
         if not g:
@@ -29,6 +29,8 @@ class CFG:
                 if n is not None:
                     elems.append(n)
             succs = [s for s in b["succs"] if isinstance(s, int)]
+            if normal_only and any(n.get("k") == "CXXThrowExpr" for n in elems):
+                succs = []          # a throw leaves the function abnormally: not a path to the normal exit
             self.blocks[b["id"]] = {"id": b["id"], "elems": elems, "succs": succs, "term": self.byid.get(b.get("term")),
                                     "term_kind": b.get("term_kind"), "raw_succs": b["succs"],
                                     "noreturn": b.get("noreturn"), "cond": self.byid.get(b.get("term_cond"))}
